@@ -136,8 +136,10 @@ class BitStringBitReader(BitReader):
         """
         try:
             return self.bit_stream.read(fmt_string)
-        except self.bitstring_Error as e:
-            raise BitReadError(e.msg)
+        except (self.bitstring_Error, ValueError) as e:
+            # bitstring >= 4 reports interpretation problems (zero/negative width,
+            # reading a bool at the end of the stream) as plain ValueError
+            raise BitReadError(str(e))
 
     def read_bytes(self, nbytes):
         return self._bit_stream_read('bytes:{}'.format(nbytes))
